@@ -240,6 +240,18 @@ def run(rep):
     return {"tree": tree, "nasim_file": nasim_file, "reproduced": not mism, "mismatches": mism, "actual": actual}
 
 
+if __name__ == "__main__" and len(sys.argv) > 2 and sys.argv[1] == "--batch":
+    reps = json.load(open(sys.argv[2]))
+    outs = []
+    for rep in reps:
+        try:
+            o = run(rep)
+            outs.append({"reproduced": o["reproduced"], "mismatches": o["mismatches"][:5]})
+        except Exception as e:
+            outs.append({"reproduced": False, "mismatches": [f"replay raised {type(e).__name__}: {e}"]})
+    print(json.dumps(outs))
+    sys.exit(0)
+
 if __name__ == "__main__":
     rep = json.load(open(sys.argv[1]))
     out = run(rep)
